@@ -13,6 +13,7 @@ func init() {
 			ruleRegistryKey(c)
 			ruleLookupFirst(c)
 			rulePtrTag(c)
+			ruleViaRegistry(c)
 			rulePendingKey(c)
 			ruleKind(c)
 			ruleOptionScope(c)
